@@ -20,6 +20,26 @@ func atomicOp(in ssa.Instruction) (kind string, addr ssa.Value) {
 		return "", nil
 	}
 	f := c.StaticCallee()
+	if f != nil {
+		if w, ok := atomicWrappers[f]; ok {
+			// a call of an atomic accessor wrapper is the operation itself
+			return atomicOpRaw(w.inner)
+		}
+	}
+	if in.Parent() != nil {
+		if _, inWrapper := atomicWrappers[in.Parent()]; inWrapper {
+			return "", nil // attributed to the wrapper's call sites
+		}
+	}
+	return atomicOpRaw(in)
+}
+
+func atomicOpRaw(in ssa.Instruction) (kind string, addr ssa.Value) {
+	c := callOf(in)
+	if c == nil {
+		return "", nil
+	}
+	f := c.StaticCallee()
 	if f == nil || f.Pkg == nil || f.Pkg.Pkg.Path() != "sync/atomic" || len(c.Args) == 0 {
 		return "", nil
 	}
@@ -39,6 +59,47 @@ func atomicOp(in ssa.Instruction) (kind string, addr ssa.Value) {
 		return "", nil
 	}
 	return kind, c.Args[0]
+}
+
+// atomicArgs: the effective arguments of the atomic operation `in` (address
+// first). For a wrapper call the wrapper's parameters are replaced by the
+// actual arguments.
+func atomicArgs(in ssa.Instruction) []ssa.Value {
+	c := callOf(in)
+	if c == nil {
+		return nil
+	}
+	f := c.StaticCallee()
+	if f == nil {
+		return c.Args
+	}
+	w, ok := atomicWrappers[f]
+	if !ok {
+		return c.Args
+	}
+	actual := callArgs(in)
+	var out []ssa.Value
+	for i, a := range w.inner.Call.Args {
+		if i == 0 {
+			out = append(out, a)
+			continue
+		}
+		if prm, isP := stripConv(a).(*ssa.Parameter); isP {
+			found := false
+			for j, q := range f.Params {
+				if q == prm && j < len(actual) {
+					out = append(out, actual[j])
+					found = true
+				}
+			}
+			if !found {
+				out = append(out, a)
+			}
+			continue
+		}
+		out = append(out, a)
+	}
+	return out
 }
 
 // atomicOnField: in is an atomic op of the given kind on field fv.
